@@ -88,7 +88,7 @@ func c11CheckMap(om *orderedmap.OrderedMap[uint8, uint8], m *c11Model, what stri
 	}
 }
 
-//verif:h prop=C11 p.ops=3/4 cover=set-new,set-old,delete-hit,delete-miss,clear,clone,stop runs=2000000 timeout=200/2400
+//verif:h prop=C11 p.ops=3/4 cover=set-new,set-old,delete-hit,delete-miss,clear,clone,stop,delete-in-foreach runs=2000000 timeout=200/2400
 func H_C11_orderedmap() {
 	u := c11Universe()
 	om := orderedmap.New[uint8, uint8]()
@@ -96,7 +96,22 @@ func H_C11_orderedmap() {
 	n := verifrt.Param("ops", 3)
 	for s := 0; s < n; s++ {
 		k := u[verifrt.Choose("key", 3)]
-		switch verifrt.Choose("op", 7) {
+		switch verifrt.Choose("op", 8) {
+		case 7: // delete the entry under the cursor while iterating: the iteration still reaches every later entry
+			before := m.clone()
+			visited := 0
+			om.ForEach(func(key, _ uint8) bool {
+				verifrt.Assert(visited < len(before.k) && before.k[visited] == key, "OrderedMap.ForEach with deletion in the callback does not visit the entries in insertion order")
+				visited++
+				if key == k {
+					om.Delete(key)
+					m.del(key)
+					verifrt.Cover("delete-in-foreach")
+				}
+
+				return true
+			})
+			verifrt.Assert(visited == len(before.k), "OrderedMap.ForEach stopped early after the callback deleted the current entry")
 		case 0:
 			v := verifrt.U8("v")
 			pv, pe := om.Set(k, v)
@@ -219,13 +234,23 @@ func c11SameOrder(s ReadableSet[uint8], m *c11Set, what string) {
 	}
 }
 
-//verif:h prop=C11 p.ops=1/2 cover=add,addall,delete,deleteall,apply,compute,replace,algebra runs=3000000 timeout=250/2400
+//verif:h prop=C11 p.ops=1/2 cover=add,addall,delete,deleteall,apply,compute,replace,algebra,self runs=3000000 timeout=250/2400
 func H_C11_set() {
 	u := c11Universe()
 	s, m := c11Subset(u, "init")
 	n := verifrt.Param("ops", 2)
 	for step := 0; step < n; step++ {
-		switch verifrt.Choose("op", 8) {
+		switch verifrt.Choose("op", 9) {
+		case 8: // the set itself as argument
+			if verifrt.Choose("self", 2) == 0 {
+				removed := s.DeleteAll(s)
+				c11SameSet(removed, m, "Set.DeleteAll(itself): returned elements are not exactly the removed ones")
+				m = &c11Set{}
+			} else {
+				added := s.AddAll(s)
+				c11SameSet(added, &c11Set{}, "Set.AddAll(itself) reported additions")
+			}
+			verifrt.Cover("self")
 		case 0:
 			k := u[verifrt.Choose("key", 3)]
 			verifrt.Assert(s.Add(k) == m.add(k), "Set.Add: reported novelty differs from the model")
@@ -410,6 +435,7 @@ func H_C11_arithmetic() {
 func H_C11_conc() {
 	s := NewSet[uint8](1, 2)
 	other := NewSet[uint8](2, 3)
+	other2 := NewSet[uint8](7, 8)
 	mutAdd := NewSetMutations[uint8](4, 5)
 	var wg sync.WaitGroup
 	var sawMid bool
@@ -442,16 +468,22 @@ func H_C11_conc() {
 			s.HasAll(other)
 			s.Equals(other)
 			s.ToSlice()
+		case 8:
+			s.Replace(other2)
 		}
 	}
-	a := verifrt.Choose("a", 8)
-	b := verifrt.Choose("b", 8)
+	a := verifrt.Choose("a", 9)
+	b := verifrt.Choose("b", 9)
 	wg.Add(2)
 	go run(a)
 	go run(b)
 	wg.Wait()
 	verifrt.Cover("done")
 	verifrt.Assert(!sawMid, "Compute observed a half-applied Apply")
+	// Replace is atomic with respect to Replace: the result is one of the two arguments, never a mixture
+	if (a == 6 && b == 8) || (a == 8 && b == 6) {
+		verifrt.Assert(s.Equals(other) || s.Equals(other2), "two concurrent Replace calls left a mixture of both arguments")
+	}
 	// single-element linearizability: Add(3) || Delete(1) from {1,2}
 	if (a == 0 && b == 1) || (a == 1 && b == 0) {
 		verifrt.Assert(s.Has(3) && !s.Has(1) && s.Has(2) && s.Size() == 2, "concurrent Add/Delete lost an update")
